@@ -192,17 +192,8 @@ Section Correct.
   Qed.
 
   (* ---------------- the supported fragment (grows as cases are proved) ---------------- *)
-  Fixpoint supported (n : node) : bool :=
-    match n with
-    | NEmpty | NChar _ | NByteSequence _ | NByteSet _ | NCharSet _ | NMatchAny | NMatchAnyExceptLT | NBracket _
-    | NAnchor _ _ | NWordBoundary _ _ | NBackRef _ _ => true
-    | NCat l => (fix go (l : list node) : bool := match l with [] => true | x :: t => supported x && go t end) l
-    | NAlt a b => supported a && supported b
-    | NCaptureGroup _ c _ => supported c
-    | NLookaround _ _ _ _ c => supported c
-    | NLoop body _ _ _ _ _ => supported body
-    | _ => false
-    end.
+  (* the fragment: every node; Loop1CharBody bodies are single instructions (IRSem.ir_wf) *)
+  Notation supported := ir_wf.
 
   Definition node_ok (f : nat) : Prop := forall n fwd off es code es' x l,
     supported n = true ->
@@ -817,6 +808,334 @@ Section Correct.
     apply backref_go_prog. exact Hu.
   Qed.
 
+  (* ---------------- Loop1CharBody ---------------- *)
+  Definition pike_taken (bi : insn) (fwd : bool) (q : nat) : R (option nat) :=
+    match bi with
+    | Char c => char_pike ix c fwd h q
+    | JustFail => Ok None
+    | bi => match match1 ix prog bi fwd h q with Some r => r | None => Err Panic end
+    end.
+
+  Lemma l1_step nested fwd t mn MX gr bi :
+    nth_error (p_insns prog) (ps_ip t) = Some (Loop1CharBody mn MX gr) ->
+    nth_error (p_insns prog) (S (ps_ip t)) = Some bi ->
+    pk_step ix prog h nested fwd t =
+    match (do tk <- (if ps_l1 t <? MX then pike_taken bi fwd (ps_pos t) else Ok None);
+           Ok (match tk, mn <=? ps_l1 t with
+               | None, false => PFail
+               | None, true => PContinue (ps_set_l1 (ps_set_ip t (ps_ip t + 2)) 0)
+               | Some tp, false => PContinue (ps_set_l1 (ps_set_pos t tp) (ps_l1 t + 1))
+               | Some tp, true =>
+                   let iterate := ps_set_l1 (ps_set_pos t tp) (ps_l1 t + 1) in
+                   let exit := ps_set_l1 (ps_set_ip t (ps_ip t + 2)) 0 in
+                   if gr then PSplit exit iterate else PSplit iterate exit
+               end)) with Err e => inl (PError e) | Ok m => inr m end.
+  Proof.
+    intros Hi Hb. unfold pk_step. rewrite Hi, Hb. unfold pike_taken. destruct bi; reflexivity.
+  Qed.
+
+  Lemma l1_dec fwd mn mx gr off bi (stepf : nat -> option (option nat)) gs lo hi :
+    nth_error (p_insns prog) off = Some (Loop1CharBody mn (max_val mx) gr) ->
+    nth_error (p_insns prog) (S off) = Some bi ->
+    (forall q, stepf q = match pike_taken bi fwd q with Ok r => Some r | Err _ => None end) ->
+    forall lf k q l t, l1_results stepf gs mn mx gr lf k q = Some l ->
+      ps_ip t = off -> ps_pos t = q -> ps_groups t = gs -> ps_l1 t = k ->
+      exists ss, map obs ss = l /\ Forall (at_end t (off + 2) lo hi) ss /\ onto fwd [t] ss.
+  Proof.
+    intros Hi Hb Hst. induction lf as [|lf IH]; intros k q l t Hr Hip Hpos Hg Hk; [discriminate|].
+    cbn [l1_results] in Hr.
+    assert (Hi' : nth_error (p_insns prog) (ps_ip t) = Some (Loop1CharBody mn (max_val mx) gr)) by (rewrite Hip; exact Hi).
+    assert (Hb' : nth_error (p_insns prog) (S (ps_ip t)) = Some bi) by (rewrite Hip; exact Hb).
+    pose proof (l1_step (fun _ _ => PNoMatch) fwd t mn (max_val mx) gr bi Hi' Hb') as Hstep.
+    rewrite Hk, Hpos in Hstep.
+    set (ex := ps_set_l1 (ps_set_ip t (ps_ip t + 2)) 0) in *.
+    assert (Hex1 : obs ex = (q, gs)) by (unfold ex, obs; simpl; congruence).
+    assert (Hex2 : at_end t (off + 2) lo hi ex) by (unfold ex; repeat split; simpl; auto; lia).
+    assert (Htk : (if k <? max_val mx then stepf q else Some None) =
+                  match (if k <? max_val mx then pike_taken bi fwd q else Ok None) with Ok r => Some r | Err _ => None end).
+    { destruct (k <? max_val mx); [apply Hst|reflexivity]. }
+    rewrite Htk in Hr.
+    destruct (if k <? max_val mx then pike_taken bi fwd q else Ok None) as [e|[tp|]]; [discriminate| |]; cbn [bindR] in Hstep.
+    - (* the body matched *)
+      set (itst := ps_set_l1 (ps_set_pos t tp) (k + 1)) in *.
+      destruct (l1_results stepf gs mn mx gr lf (k + 1) tp) as [it|] eqn:Eit; [|discriminate].
+      destruct (IH (k + 1) tp it itst Eit) as (ssi & I1 & I2 & I3);
+        try (unfold itst; simpl; first [reflexivity | congruence | assumption]).
+      assert (I2' : Forall (at_end t (off + 2) lo hi) ssi).
+      { eapply Forall_impl; [|exact I2]. intros u (Q1 & Q2 & Q3 & Q4). repeat split; auto. }
+      inversion Hr; subst l. clear Hr.
+      destruct (mn <=? k).
+      + destruct gr.
+        * exists (ssi ++ [ex]). repeat split.
+          -- rewrite map_app, I1. simpl. rewrite Hex1. reflexivity.
+          -- apply Forall_app. split; [exact I2'|]. constructor; [exact Hex2|constructor].
+          -- eapply onto_trans.
+             ++ apply (onto_plain fwd t _ (PSplit ex itst) Hi'); auto. discriminate.
+             ++ simpl push. change [itst; ex] with ([itst] ++ [ex]). apply onto_app; [exact I3|apply onto_refl].
+        * exists (ex :: ssi). repeat split.
+          -- simpl. rewrite Hex1, I1. reflexivity.
+          -- constructor; [exact Hex2|exact I2'].
+          -- eapply onto_trans.
+             ++ apply (onto_plain fwd t _ (PSplit itst ex) Hi'); auto. discriminate.
+             ++ simpl push. change (ex :: ssi) with ([ex] ++ ssi). change [ex; itst] with ([ex] ++ [itst]).
+                apply onto_app; [apply onto_refl|exact I3].
+      + exists ssi. repeat split; auto.
+        eapply onto_trans; [|exact I3]. apply (onto_plain fwd t _ (PContinue itst) Hi'); auto. discriminate.
+    - (* the body did not match, or the maximum is reached *)
+      inversion Hr; subst l. clear Hr.
+      destruct (mn <=? k).
+      + exists [ex]. repeat split.
+        * simpl. rewrite Hex1. reflexivity.
+        * constructor; [exact Hex2|constructor].
+        * apply (onto_plain fwd t _ (PContinue ex) Hi'); auto. discriminate.
+      + exists []. repeat split; [constructor|]. apply (onto_plain fwd t _ PFail Hi'); auto. discriminate.
+  Qed.
+
+  Lemma l1_body_single body : l1_body_ok body = true -> forall lb lc, leaf_code lb body = Some lc -> exists bi, lc = [bi].
+  Proof.
+    intros Hok lb lc El.
+    destruct body as [ | |c|bs|bs|cs|l0|a b| | |sol ml|inv ui|id c nm|g ic|b|alts icase|ng bw sg eg c|body' mn' mx' gr' egs ege|body' mn' mx' gr'];
+      simpl in Hok, El; try discriminate; try (inversion El; subst; eauto; fail).
+    - (* ByteSequence *)
+      inversion El; subst lc.
+      destruct (emit_byte_sequence false bs) as [|? [|? ?]] eqn:E1; try discriminate;
+        destruct (emit_byte_sequence true bs) as [|? [|? ?]] eqn:E2; try discriminate.
+      destruct lb; [rewrite E2|rewrite E1]; eauto.
+    - (* ByteSet *) destruct (emit_byte_set bs) as [e|[|? [|? ?]]]; try discriminate. inversion El; eauto.
+    - (* CharSet *) destruct (emit_char_set cs) as [e|[|? [|? ?]]]; try discriminate. inversion El; eauto.
+    - (* Bracket *) destruct (bracket_as_ascii b); inversion El; eauto.
+  Qed.
+
+  Lemma run_insns_single bi fwd q : simple_insn bi = true ->
+    run_insns ix (p_unicode prog) h [bi] fwd q = match pike_taken bi fwd q with Ok r => Some r | Err _ => None end.
+  Proof.
+    intro Hs. cbn [run_insns]. unfold pike_taken.
+    destruct bi; simpl in Hs; try discriminate;
+      try (rewrite (match1_prog_irrelevant _ fwd q (dummy_prog (p_unicode prog)) prog) by reflexivity; cbn [match1]);
+      match goal with |- context [match ?r with Err _ => _ | Ok _ => _ end] => destruct r as [e|[p'|]]; reflexivity | _ => reflexivity end.
+  Qed.
+
+  Lemma l1_ok f body mn mx gr fwd off es code es' x l : l1_body_ok body = true ->
+    ir_results ix (p_unicode prog) utf16 h (S f) (NLoop1CharBody body mn mx gr) fwd x = Some l ->
+    emit_node utf16 (p_unicode prog) (NLoop1CharBody body mn mx gr) off (negb fwd) es = Ok (code, es') ->
+    code_at off code -> brackets_ok es' ->
+    forall s, ps_ip s = off -> obs s = x -> ps_l1 s = 0 ->
+    exists ss, map obs ss = l /\ Forall (at_end s (off + length code) (es_next_loop es) (es_next_loop es')) ss /\ onto fwd [s] ss.
+  Proof.
+    intros Hok Hr He Hc Hbr s Hip Hobs Hl1.
+    destruct x as [p gs]. cbn [ir_results] in Hr.
+    destruct (single_step ix (p_unicode prog) h (negb fwd) body fwd) as [stepf|] eqn:Ess; [|discriminate].
+    simpl in He.
+    destruct (emit_node utf16 (p_unicode prog) body (S off) (negb fwd) es) as [e|[cb eb]] eqn:Eb; simpl in He; [discriminate|].
+    inversion He; subst code es'. clear He.
+    assert (Hp : ps_pos s = p) by (unfold obs in Hobs; congruence).
+    assert (Hg : ps_groups s = gs) by (unfold obs in Hobs; congruence).
+    apply code_at_cons in Hc as [Hi0 Hcb].
+    (* the body is one instruction whose step is stepf *)
+    assert (Hbody : exists bi, cb = [bi] /\
+              forall q, stepf q = match pike_taken bi fwd q with Ok r => Some r | Err _ => None end).
+    { unfold single_step in Ess.
+      destruct (leaf_code (negb fwd) body) as [lc|] eqn:El.
+      - inversion Ess; subst stepf. clear Ess.
+        pose proof (emit_leaf body (negb fwd) es (S off) lc El) as He'. rewrite Eb in He'. inversion He'; subst cb eb.
+        pose proof (leaf_code_simple _ _ _ El) as Hsimp.
+        destruct (l1_body_single body Hok (negb fwd) lc El) as (bi & Hbi). assert (Hsing : exists bi, lc = [bi]) by eauto. clear Hbi bi.
+        destruct Hsing as (bi & ->). exists bi. split; [reflexivity|].
+        intro q. apply run_insns_single. simpl in Hsimp. apply andb_true_iff in Hsimp as [H1 _]. exact H1.
+      - destruct body as [ | |c|bs|bs|cs|l0|a b| | |sol ml|inv ui|id c nm|g ic|b|alts icase|ng bw sg eg c|body' mn' mx' gr' egs ege|body' mn' mx' gr']; try discriminate. inversion Ess; subst stepf. clear Ess.
+        simpl in El. destruct (bracket_as_ascii b) eqn:Ea; [discriminate|].
+        simpl in Eb. rewrite Ea in Eb. inversion Eb; subst cb eb. clear Eb.
+        exists (Bracket (length (es_brackets es))). split; [reflexivity|].
+        intro q. unfold pike_taken. cbn [match1].
+        assert (Hnb : nth_error (p_brackets prog) (length (es_brackets es)) = Some b).
+        { apply Hbr. simpl. rewrite nth_error_app2 by lia. rewrite Nat.sub_diag. reflexivity. }
+        rewrite Hnb. destruct (next_if ix fwd h q (bracket_matches b)); reflexivity. }
+    destruct Hbody as (bi & -> & Hst).
+    apply code_at_cons in Hcb as [Hib _].
+    replace (off + length [Loop1CharBody mn match mx with Some v => v | None => USIZE_MAX end gr; bi])%nat with (off + 2)%nat by (simpl; lia).
+    eapply (l1_dec fwd mn mx gr off bi stepf gs); eauto.
+  Qed.
+
+  (* ---------------- class-set strings ---------------- *)
+  Lemma run_insns_app a b fwd q :
+    run_insns ix (p_unicode prog) h (a ++ b) fwd q =
+    match run_insns ix (p_unicode prog) h a fwd q with
+    | Some (Some q') => run_insns ix (p_unicode prog) h b fwd q'
+    | other => other
+    end.
+  Proof.
+    revert q; induction a as [|i a IH]; intro q; [reflexivity|].
+    cbn [app run_insns].
+    destruct (match i with Char c => Some (char_pike ix c fwd h q) | JustFail => Some (Ok None)
+                      | _ => match1 ix (dummy_prog (p_unicode prog)) i fwd h q end) as [[e|[q'|]]|]; auto.
+  Qed.
+
+  Lemma piece_leaf lb pc c : emit_piece_node lb (node_of_piece pc) = Ok c -> leaf_code lb (node_of_piece pc) = Some c.
+  Proof.
+    destruct pc; simpl; intro H.
+    - inversion H; reflexivity.
+    - inversion H; reflexivity.
+    - rewrite H. reflexivity.
+    - rewrite H. reflexivity.
+  Qed.
+
+  Definition piece_step (lb : bool) (acc : R (list insn)) (p : piece) : R (list insn) :=
+    do a <- acc; do i <- emit_piece_node lb (node_of_piece p); Ok (a ++ i).
+
+  Lemma fold_pieces_err lb l e : fold_left (piece_step lb) l (Err e) = Err e.
+  Proof. induction l; simpl; auto. Qed.
+
+  Lemma fold_pieces lb fwd : forall l a0 c, fold_left (piece_step lb) l (Ok a0) = Ok c ->
+    exists c', c = a0 ++ c' /\ forallb simple_insn c' = true /\
+               forall q, pieces_run ix (p_unicode prog) h lb (map node_of_piece l) fwd q = run_insns ix (p_unicode prog) h c' fwd q.
+  Proof.
+    induction l as [|pc l IH]; intros a0 c H; cbn [fold_left] in H.
+    - inversion H; subst. exists []. rewrite app_nil_r. repeat split; auto.
+    - replace (piece_step lb (Ok a0) pc)
+        with (match emit_piece_node lb (node_of_piece pc) with Err e => Err e | Ok i => Ok (a0 ++ i) end) in H by reflexivity.
+      destruct (emit_piece_node lb (node_of_piece pc)) as [e|i] eqn:Ei.
+      + rewrite fold_pieces_err in H. discriminate.
+      + destruct (IH _ _ H) as (c'' & -> & Hs & Hrun).
+        pose proof (piece_leaf _ _ _ Ei) as Hl.
+        exists (i ++ c''). repeat split.
+        * rewrite app_assoc. reflexivity.
+        * rewrite forallb_app, Hs, (leaf_code_simple _ _ _ Hl). reflexivity.
+        * intro q. cbn [map pieces_run]. rewrite Hl, run_insns_app.
+          destruct (run_insns ix (p_unicode prog) h i fwd q) as [[q'|]|]; auto.
+  Qed.
+
+  (* one string alternative: straight-line code equal to its pieces *)
+  Lemma cp_sequence_code fwd a icase code pieces : utf16 = false ->
+    emit_cp_sequence utf16 (p_unicode prog) (negb fwd) a icase = Ok code ->
+    lower_code_point_sequence a icase (p_unicode prog) = Some pieces ->
+    forallb simple_insn code = true /\
+    forall q, pieces_run ix (p_unicode prog) h (negb fwd) (map node_of_piece (if fwd then pieces else rev pieces)) fwd q
+              = run_insns ix (p_unicode prog) h code fwd q.
+  Proof.
+    intros Hu He Hl. unfold emit_cp_sequence in He. rewrite Hu, Hl in He.
+    change (fold_left (piece_step (negb fwd)) (if negb fwd then rev pieces else pieces) (Ok []) = Ok code) in He.
+    replace (if negb fwd then rev pieces else pieces) with (if fwd then pieces else rev pieces) in He by (destruct fwd; reflexivity).
+    destruct (fold_pieces (negb fwd) fwd _ _ _ He) as (c' & Hc & Hs & Hr). simpl in Hc. subst c'. split; auto.
+  Qed.
+
+  Lemma emit_string_set_cons2 lb a b rest icase off endoff :
+    emit_string_set utf16 (p_unicode prog) lb (a :: b :: rest) icase off endoff =
+    do code <- emit_cp_sequence utf16 (p_unicode prog) lb a icase;
+    do r <- emit_string_set utf16 (p_unicode prog) lb (b :: rest) icase (off + 2 + length code) endoff;
+    Ok (Alt (off + 2 + length code) :: code ++ Jump endoff :: r).
+  Proof. reflexivity. Qed.
+  Lemma string_set_len_cons2 lb a b rest icase :
+    string_set_len utf16 (p_unicode prog) lb (a :: b :: rest) icase =
+    do c <- emit_cp_sequence utf16 (p_unicode prog) lb a icase;
+    do r <- string_set_len utf16 (p_unicode prog) lb (b :: rest) icase; Ok (2 + length c + r)%nat.
+  Proof. reflexivity. Qed.
+
+  Lemma string_set_len_ok lb icase : forall alts off endoff code n,
+    emit_string_set utf16 (p_unicode prog) lb alts icase off endoff = Ok code ->
+    string_set_len utf16 (p_unicode prog) lb alts icase = Ok n -> length code = n.
+  Proof.
+    induction alts as [|a alts IH]; intros off endoff code n He Hn.
+    - simpl in He, Hn. inversion He; inversion Hn; reflexivity.
+    - destruct alts as [|b rest].
+      + simpl in He, Hn. rewrite He in Hn. simpl in Hn. inversion Hn. reflexivity.
+      + rewrite emit_string_set_cons2 in He. rewrite string_set_len_cons2 in Hn.
+        destruct (emit_cp_sequence utf16 (p_unicode prog) lb a icase) as [e|ca]; cbn [bindR] in He, Hn; [discriminate|].
+        destruct (emit_string_set utf16 (p_unicode prog) lb (b :: rest) icase (off + 2 + length ca) endoff) as [e|r] eqn:Er; cbn [bindR] in He; [discriminate|].
+        destruct (string_set_len utf16 (p_unicode prog) lb (b :: rest) icase) as [e|m] eqn:Em; cbn [bindR] in Hn; [discriminate|].
+        inversion He; inversion Hn; subst. simpl. rewrite app_length. simpl. rewrite (IH _ _ _ _ Er eq_refl). lia.
+  Qed.
+
+  Lemma strset_chain fwd icase x lo hi : forall alts off endoff code l s,
+    emit_string_set utf16 (p_unicode prog) (negb fwd) alts icase off endoff = Ok code ->
+    endoff = (off + length code)%nat -> code_at off code ->
+    strset_results ix (p_unicode prog) utf16 h alts icase fwd x = Some l ->
+    ps_ip s = off -> obs s = x -> ps_l1 s = 0 ->
+    exists ss, map obs ss = l /\ Forall (at_end s endoff lo hi) ss /\ onto fwd [s] ss.
+  Proof.
+    induction alts as [|a alts IH]; intros off endoff code l s He Hend Hc Hr Hip Hobs Hl1.
+    - simpl in He, Hr. inversion He; inversion Hr; subst code l. apply code_at_cons in Hc as [Hi _].
+      exists []. repeat split; [constructor|].
+      apply (onto_plain fwd s JustFail PFail); auto.
+      + rewrite Hip. exact Hi.
+      + unfold pk_step. rewrite Hip, Hi. reflexivity.
+      + discriminate.
+    - unfold strset_results in Hr. cbn [obindm] in Hr.
+      assert (Hu : utf16 = false) by (destruct utf16; [discriminate Hr|reflexivity]).
+      rewrite Hu in Hr.
+      destruct (lower_code_point_sequence a icase (p_unicode prog)) as [pieces|] eqn:El; [|discriminate].
+      match type of Hr with match ?r with _ => _ end = _ => destruct r as [ra|] eqn:Era; [|discriminate] end.
+      match type of Hr with match ?r with _ => _ end = _ => destruct r as [rrest|] eqn:Erest; [|discriminate] end.
+      inversion Hr; subst l. clear Hr.
+      assert (Hpos : fst x = ps_pos s) by (rewrite <- Hobs; reflexivity).
+      destruct alts as [|b rest].
+      + (* the last alternative falls through *)
+        cbn [emit_string_set] in He. simpl in Erest. inversion Erest; subst rrest. rewrite app_nil_r.
+        destruct (cp_sequence_code fwd a icase code pieces Hu He El) as (Hs & Hrun).
+        rewrite Hrun in Era. apply results_of_inv in Era as (q & Hq & ->). rewrite Hpos in Hq.
+        pose proof (run_insns_onto fwd code off s Hc Hs Hip q Hq) as Ho. subst endoff.
+        destruct q as [p'|].
+        * exists [moved s (off + length code) p']. repeat split; auto.
+          -- simpl. unfold obs; simpl. rewrite <- Hobs. reflexivity.
+          -- constructor; [|constructor]. apply at_end_moved; assumption.
+        * exists []. repeat split; [constructor|exact Ho].
+      + rewrite emit_string_set_cons2 in He.
+        destruct (emit_cp_sequence utf16 (p_unicode prog) (negb fwd) a icase) as [e|ca] eqn:Eca; cbn [bindR] in He; [discriminate|].
+        set (next := (off + 2 + length ca)%nat) in *.
+        destruct (emit_string_set utf16 (p_unicode prog) (negb fwd) (b :: rest) icase next endoff) as [e|r] eqn:Er; cbn [bindR] in He; [discriminate|].
+        inversion He; subst code. clear He.
+        apply code_at_cons in Hc as [Hi0 Hc]. apply code_at_app in Hc as [Hca Hc]. apply code_at_cons in Hc as [Hij Hcr].
+        destruct (cp_sequence_code fwd a icase ca pieces Hu Eca El) as (Hs & Hrun).
+        rewrite Hrun in Era. apply results_of_inv in Era as (q & Hq & ->). rewrite Hpos in Hq.
+        set (sl := ps_set_ip s (S (ps_ip s))). set (sr := ps_set_ip s next).
+        assert (Hendr : endoff = (next + length r)%nat).
+        { rewrite Hend. unfold next. simpl. rewrite app_length. simpl. lia. }
+        assert (Hcr' : code_at next r).
+        { replace next with (S (S off + length ca)) by (unfold next; lia). exact Hcr. }
+        destruct (IH next endoff r rrest sr) as (ssb & B1 & B2 & B3); auto.
+        { unfold strset_results. rewrite Hu. exact Erest. }
+        assert (Hql : run_insns ix (p_unicode prog) h ca fwd (ps_pos sl) = Some q) by exact Hq.
+        pose proof (run_insns_onto fwd ca (S off) sl Hca Hs (f_equal S Hip) q Hql) as Ho.
+        assert (Hjump : forall t, ps_ip t = (S off + length ca)%nat -> onto fwd [t] [ps_set_ip t endoff]).
+        { intros t Ht. apply (onto_plain fwd t (Jump endoff) (PContinue (ps_set_ip t endoff))); auto.
+          - rewrite Ht. exact Hij.
+          - apply step_jump. rewrite Ht. exact Hij.
+          - discriminate. }
+        assert (Hsplit : onto fwd [s] [sl; sr]).
+        { apply (onto_plain fwd s (Alt next) (PSplit sr sl)); auto.
+          - rewrite Hip. exact Hi0.
+          - apply step_alt. rewrite Hip. exact Hi0.
+          - discriminate. }
+        assert (B2' : Forall (at_end s endoff lo hi) ssb).
+        { eapply Forall_impl; [|exact B2]. intros t (Q1 & Q2 & Q3 & Q4). repeat split; auto. }
+        destruct q as [p'|].
+        * exists (ps_set_ip (moved sl (S off + length ca) p') endoff :: ssb). repeat split.
+          -- simpl. rewrite B1. unfold obs at 1; simpl. rewrite <- Hobs. reflexivity.
+          -- constructor; [|exact B2']. repeat split; auto.
+          -- eapply onto_trans; [exact Hsplit|].
+             change [sl; sr] with ([sl] ++ [sr]).
+             change (ps_set_ip (moved sl (S off + length ca) p') endoff :: ssb) with ([ps_set_ip (moved sl (S off + length ca) p') endoff] ++ ssb).
+             apply onto_app; [|exact B3].
+             eapply onto_trans; [exact Ho|]. apply Hjump. reflexivity.
+        * exists ssb. repeat split; auto.
+          eapply onto_trans; [exact Hsplit|]. change [sl; sr] with ([sl] ++ [sr]).
+          change ssb with ([] ++ ssb). apply onto_app; [exact Ho|exact B3].
+  Qed.
+
+  Lemma strset_ok f fwd alts icase off es code es' x l :
+    ir_results ix (p_unicode prog) utf16 h (S f) (NStringSet alts icase) fwd x = Some l ->
+    emit_node utf16 (p_unicode prog) (NStringSet alts icase) off (negb fwd) es = Ok (code, es') ->
+    code_at off code ->
+    forall s, ps_ip s = off -> obs s = x -> ps_l1 s = 0 ->
+    exists ss, map obs ss = l /\ Forall (at_end s (off + length code) (es_next_loop es) (es_next_loop es')) ss /\ onto fwd [s] ss.
+  Proof.
+    intros Hr He Hc s Hip Hobs Hl1. destruct x as [p gs]. cbn [ir_results] in Hr. simpl in He.
+    destruct (string_set_len utf16 (p_unicode prog) (negb fwd) alts icase) as [e|len] eqn:Elen; cbn [bindR] in He; [discriminate|].
+    destruct (emit_string_set utf16 (p_unicode prog) (negb fwd) alts icase off (off + len)) as [e|c] eqn:Ec; cbn [bindR] in He; [discriminate|].
+    inversion He; subst code es'. clear He.
+    pose proof (string_set_len_ok _ _ _ _ _ _ _ Ec Elen) as Hlen. rewrite <- Hlen in Ec.
+    eapply strset_chain; eauto.
+  Qed.
+
   Theorem all_ok : forall f, node_ok f.
   Proof.
     induction f as [|f IHf]; intros n fwd off es code es' x l Hsup Hr He Hc Hbr s Hip Hobs Hl1 Hlen.
@@ -884,10 +1203,10 @@ Section Correct.
           -- simpl. rewrite Eb. discriminate.
           -- intros p gs. simpl. rewrite Eb. reflexivity.
         * destruct x as [p gs]. cbn [ir_results] in Hr. rewrite Eb in Hr. eapply bracket_ok; eauto.
-      + discriminate Hsup.
+      + (* StringSet *) eapply (strset_ok f fwd alts icase); eauto.
       + (* Lookaround *) eapply (look_ok f IHf fwd ng bw sg eg c); eauto.
       + (* Loop *) eapply (loop_ok f IHf fwd body mn mx gr egs ege); eauto.
-      + discriminate Hsup.
+      + (* Loop1CharBody *) eapply (l1_ok f body mn mx gr); eauto.
   Qed.
 
 End Correct.
